@@ -30,6 +30,12 @@ def one(patch):
             bad = sorted(set(i.key for r in ctx.rules for i in r.insts if not i.ok))
             if bad:
                 fired[p] = bad[:6]
+                if os.environ.get('SEED_EVAL_DETAILS'):
+                    det = out.setdefault('details', {})
+                    for r in ctx.rules:
+                        for i in r.insts:
+                            if not i.ok and i.key not in det and '/' not in i.key.split(':')[1][:6]:
+                                det[i.key] = {'built': json.dumps(core.jsonable(i.built))[:1200], 'expected': json.dumps(core.jsonable(i.expected))[:800], 'why': (i.why or '')[:300]}
         out['status'] = 'ok'
         out['fired'] = fired
         return out
